@@ -21,6 +21,8 @@ var checks = map[string]func(*vk.Run){
 	"C03": ka.RunC03,
 	"C01": rp.RunC01,
 	"C02": rp.RunC02,
+	"C09": rp.RunC09,
+	"C17": rp.RunC17,
 }
 
 func main() {
@@ -29,6 +31,14 @@ func main() {
 		os.Exit(2)
 	}
 	id := os.Args[1]
+	if id == "C17race" {
+		rp.PolicyRace()
+		return
+	}
+	if id == "C09race" {
+		rp.RaceStress()
+		return
+	}
 	tier := "quick"
 	if len(os.Args) > 2 {
 		tier = os.Args[2]
